@@ -33,7 +33,7 @@ func c01Note(c *Ctx, res *Resolved) {
 }
 
 func checkC01(c *Ctx) {
-	c.Rule = "seeded populations of 1-4 configured directories (missing, repeated, non-clean spellings) with valid/invalid/non-Spec/nested files and non-regular entries (FIFO, symbolic link to a directory) over a small pool of kinds and device names (so that definitions collide), each followed by 1-4 change steps with a refresh after each; manual mode and auto-refresh mode (logical quiescence via sentinel + watch.event hook, then Refresh); distinct_nontrivial = distinct population shapes (per device: directory index -> number of defining files, plus presence of invalid/ignored/repeated/missing entries) seen at a comparison point"
+	c.Rule = "seeded populations of 1-4 configured directories (missing, repeated, non-clean spellings) with valid/invalid/non-Spec/nested files and non-regular entries (FIFO, symbolic link to a directory) over a small pool of kinds and device names (so that definitions collide), each followed by 1-4 change steps (file-system changes with a refresh after each, or a reconfiguration of the same cache with a permuted / shortened / repeated directory list); manual mode and auto-refresh mode (logical quiescence via sentinel + watch.event hook, then Refresh); distinct_nontrivial = distinct population shapes (per device: directory index -> number of defining files, plus presence of invalid/ignored/repeated/missing entries) seen at a comparison point"
 	c.Assume("M-RESOLVE (gen_dirs.go) transcribes the statement of C01", "populations are bounded: <=4 directories, <=5 Spec files per directory, <=3 devices per file", "symlinked directories are outside the generator")
 	nManual := c.pick(2500, 40000)
 	nAuto := c.pick(250, 4000)
@@ -52,7 +52,15 @@ func checkC01(c *Ctx) {
 		}
 		steps := 1 + r.Intn(4)
 		for k := 0; k <= steps; k++ {
-			if k > 0 {
+			if k > 0 && chance(r, 20) {
+				// the directory list itself changes: the cache is reconfigured (which rescans)
+				history = append(history, p.Relist(r, -1))
+				c.Count("reconfigurations", 1)
+				if pv, st := guard(func() { cache.Configure(cdi.WithSpecDirs(p.Conf...)) }); pv != nil {
+					cs.Violation("panic", nil, fmt.Sprintf("Configure panics: %v", pv), map[string]any{"population": p.Describe(), "history": history, "stack": st})
+					return
+				}
+			} else if k > 0 {
 				history = append(history, p.Step(r))
 				if pv, st := guard(func() { cache.Refresh() }); pv != nil {
 					cs.Violation("panic", nil, fmt.Sprintf("Refresh panics: %v", pv), map[string]any{"population": p.Describe(), "history": history, "stack": st})
@@ -100,7 +108,11 @@ func checkC01(c *Ctx) {
 		history := []string{"initial"}
 		steps := 1 + r.Intn(4)
 		for k := 0; k <= steps; k++ {
-			if k > 0 {
+			if k > 0 && chance(r, 25) {
+				history = append(history, p.Relist(r, p.Protect))
+				c.Count("reconfigurations_auto", 1)
+				a.C.Configure(cdi.WithSpecDirs(p.Conf...))
+			} else if k > 0 {
 				history = append(history, p.Step(r))
 				if !a.Quiesce() {
 					c.Inconclusive("quiesce-timeout")
@@ -132,5 +144,7 @@ func checkC01(c *Ctx) {
 		c.Floor(k, 5)
 	}
 	c.Floor("comparisons_auto", 20)
+	c.Floor("reconfigurations", 20)
+	c.Floor("reconfigurations_auto", 5)
 	c.Floor("watcher_event:CREATE", 1)
 }
